@@ -372,11 +372,11 @@ def hexb(b):
     return b.hex() if b else "-"
 
 
-def run_cmd(cmd, stdin=b"", timeout=60, env=None, cwd=None):
+def run_cmd(cmd, stdin=b"", timeout=60, env=None, cwd=None, preexec_fn=None):
     """Run a real helper; returns (exit class, stdout bytes, stderr bytes).
     Death by signal N is reported as -N."""
     try:
-        r = subprocess.run(cmd, input=stdin, capture_output=True, timeout=timeout, env=env, cwd=cwd)
+        r = subprocess.run(cmd, input=stdin, capture_output=True, timeout=timeout, env=env, cwd=cwd, preexec_fn=preexec_fn)
     except subprocess.TimeoutExpired:
         return ("timeout", b"", b"")
     return (r.returncode, r.stdout, r.stderr)
